@@ -449,9 +449,24 @@ def protoSched (threads seed : Nat) (g : Nat) (xs : List KV) : List KV :=
   let s := randomExec (2 * xs.length + threads + 2) (seed * 1000003 + g + 1) (Sched.init threads xs.length)
   if s.terminal then Sched.applyOrder s.collected xs else xs
 
-def cmdMerge (mode : String) (batch fd threads seed : Nat) (rows : String) : String :=
+/-- what the lines of the input files mean as rows (fst-bin/src/cmd/set.rs, util.rs
+`ConcatLines`): a line ends at `\n` or `\r\n`, so the content of a `fst set` line that ends in
+CR loses one CR; `rep:k:n` = the file holding the first `k` rows is listed `n` more times -/
+def inputRows (mode : String) (rows : List (Key × Nat)) (opt : String) : List (Key × Nat) :=
+  let opts := opt.splitOn ","
+  -- an unterminated last line (`one,nonl`: single file without final newline) keeps its CR
+  let lastKeeps := opts.contains "one" && opts.contains "nonl"
+  let n := rows.length
+  let rows := rows.zipIdx.map fun ((k, v), i) =>
+    if mode == "set" && k.getLast? == some 13 && !(lastKeeps && i + 1 == n) then (k.dropLast, v) else (k, v)
+  match opts.filterMap (fun o => match o.splitOn ":" with | ["rep", k, n] => some (k.toNat!, n.toNat!) | _ => none) with
+  | (k, n) :: _ => rows ++ (List.replicate n (rows.take k)).flatten
+  | [] => rows
+
+def cmdMerge (mode : String) (batch fd threads seed : Nat) (rows : String) (opt : String := "") : String :=
   let m := match mode with
     | "sum" => MergeMode.sum | "max" => .max | "min" => .min | _ => .set
+  let parseRows := fun s => inputRows mode (parseRows s) opt
   -- two schedules: an arbitrary permutation, and an interleaving of the thread protocol
   let r1 := mergeAll m batch fd (permute seed) (parseRows rows)
   let r2 := mergeAll m batch fd (protoSched (max threads 1) seed) (parseRows rows)
@@ -518,7 +533,7 @@ def step (st : DrvState) (line : String) : DrvState × String :=
      if parseFull s == Spec.utf8Full then "utf8full ok" else "utf8full differs-from-Spec.utf8Full")
   | ["lev", q, d, limit] => (st, cmdLev st q d.toNat! limit.toNat!)
   | "merge" :: mode :: batch :: fd :: threads :: seed :: rest =>
-    (st, cmdMerge mode batch.toNat! fd.toNat! threads.toNat! seed.toNat! (rest.headD ""))
+    (st, cmdMerge mode batch.toNat! fd.toNat! threads.toNat! seed.toNat! (rest.headD "") ((rest.drop 1).headD ""))
   | "sched" :: threads :: total :: rest =>
     let order := ((rest.headD "").splitOn ",").filterMap fun x => if x == "" then none else some x.toNat!
     (st, s!"sched runs={Sched.runs order} valid={Sched.validOrder threads.toNat! total.toNat! order}")
